@@ -828,7 +828,19 @@ def check_read_body(ck, tree, RP="C01"):
         if takes and not eq:
             others = [n for n in cfg.stmt_nodes(lambda n: n.kind == "test") if P in q.names_in(n.ast)]
             if others:
-                raise AnalysisError("unrecognised Content-Length agreement test at %s" % fi.site(others[0].ast))
+                # positive evidence: if every read of the list anywhere in the function is a constant-index
+                # subscript, only a fixed number of members is ever inspected, so no test can establish that
+                # *all* members agree (the list has unbounded length) -> violation, not an unknown shape
+                par = {}
+                for a_ in ast.walk(fi.node):
+                    for c_ in ast.iter_child_nodes(a_):
+                        par[id(c_)] = a_
+                reads = [x for x in ast.walk(fi.node) if isinstance(x, ast.Name) and x.id == P and isinstance(x.ctx, ast.Load)]
+                only_fixed = bool(reads) and all(isinstance(par.get(id(x)), ast.Subscript) and par[id(x)].value is x and (isinstance(par[id(x)].slice, ast.Constant) or (isinstance(par[id(x)].slice, ast.UnaryOp) and isinstance(par[id(x)].slice.operand, ast.Constant))) for x in reads)
+                if only_fixed:
+                    ck.ob(R, fi, others[0].ast, False, "the agreement test of a comma-joined Content-Length compares every member (here the list %s is only ever read at fixed positions, so an interior member that differs is not seen)" % P)
+                else:
+                    raise AnalysisError("unrecognised Content-Length agreement test at %s" % fi.site(others[0].ast))
         for node in takes:
             ck.ob(R, fi, node.ast, bool(eq) and only_through(cfg, node, eq), "one member of a comma-joined Content-Length is used only when all members are equal (else HTTPInputError)")
         if takes:
